@@ -276,16 +276,16 @@ class Replay:
                 if n != exp: return ("value", "read %r, expected the lines %r%s" % (got[:6], exp[:6], " (each with one \"\\n\")" if self.disk else ""))
         elif want == "raise":
             x = obs["x"]
-            if raised is None: return ("no-raise:%s" % x, "returned normally (%r), the spec says it raises %s" % (got if got is not None else ret, x))
-            if x == "coba" and not isinstance(raised, C.CobaException): return ("raises:%s" % type(raised).__name__, "raised %s: %s instead of CobaException" % (type(raised).__name__, str(raised)[:120]))
-            if x in ("E", "K") and raised is not exc_obj: return ("raises:%s" % type(raised).__name__, "raised %s: %s instead of the getter's own exception" % (type(raised).__name__, str(raised)[:120]))
-            if x == "B" and raised is not self.body_exc: return ("raises:%s" % type(raised).__name__, "raised %s: %s instead of the exception of the with-body" % (type(raised).__name__, str(raised)[:120]))
-            if x == "err" and not isinstance(raised, Exception): return ("raises:%s" % type(raised).__name__, "raised %s" % type(raised).__name__)
             if x == "badkey" and len(self.lastbad) > 255:
                 # longer than a file name can be: the OS's own error is accepted, and so is "not there" for `in` / rmv
                 if raised is None and (w == "getset" or ret not in (False, None)): return ("no-raise:badkey", "the over-long key gave %r" % (ret,))
                 if raised is not None and not isinstance(raised, (C.CobaException, OSError)): return ("raises:%s" % type(raised).__name__, "the over-long key raised %s: %s" % (type(raised).__name__, str(raised)[:100]))
                 return None
+            if raised is None: return ("no-raise:%s" % x, "returned normally (%r), the spec says it raises %s" % (got if got is not None else ret, x))
+            if x == "coba" and not isinstance(raised, C.CobaException): return ("raises:%s" % type(raised).__name__, "raised %s: %s instead of CobaException" % (type(raised).__name__, str(raised)[:120]))
+            if x in ("E", "K") and raised is not exc_obj: return ("raises:%s" % type(raised).__name__, "raised %s: %s instead of the getter's own exception" % (type(raised).__name__, str(raised)[:120]))
+            if x == "B" and raised is not self.body_exc: return ("raises:%s" % type(raised).__name__, "raised %s: %s instead of the exception of the with-body" % (type(raised).__name__, str(raised)[:120]))
+            if x == "err" and not isinstance(raised, Exception): return ("raises:%s" % type(raised).__name__, "raised %s" % type(raised).__name__)
             if x == "badkey":
                 okc = (C.CobaException,)
                 if not isinstance(raised, okc): return ("raises:%s" % type(raised).__name__, "the key %r raised %s: %s instead of CobaException" % (self.lastbad, type(raised).__name__, str(raised)[:100]))
@@ -444,7 +444,7 @@ def configs(ctx):
         add("uses", "KUses", "K2", "SlotColl", "ArgsUsesQ", "OpsUse", 3)
         add("hold", "KConcs", "K3", "SlotColl", "ArgsHold", "OpsUse", 3)
         add("env", "KDisks", "K1", "SlotDist", "ArgsEnvQ", "OpsEnv", 3)
-        add("sim", "KAll", "K3", "SlotColl", "ArgsAll", "OpsAll", 6, sim=300)
+        add("sim", "KAll", "K3", "SlotColl", "ArgsAll", "OpsAll", 6, sim=1500)
     else:
         add("values", "KAll", "K2", "SlotDist", "ArgsValues", "OpsMap", 3)
         add("few", "KMems", "K3", "SlotDist", "ArgsFew", "OpsMap", 4)
